@@ -129,8 +129,9 @@ def execute(case, force_subprocess=False):
             V("output_is_not_valid_python", f"{type(e).__name__}: {e} || {out[:160]!r}")
             return {"obs": ["syntax"], "viol": viol, "outcome": "syntax_error", "show": str(e)[:80]}
         b0 = tree.body[0] if tree.body else None
+        # "the first statement is the header string": a bare string constant; its wording is not part of the property
         if not (isinstance(b0, ast.Expr) and isinstance(b0.value, ast.Constant) and isinstance(b0.value.value, str)
-                and b0.value.value.startswith("\ngenerated by json2python-models")):
+                and "json2python-models" in b0.value.value):
             V("first_statement_is_not_the_header_string", f"{ast.dump(b0)[:160] if b0 else None}")
             return {"obs": ["nohdr"], "viol": viol, "outcome": "no_header", "show": out[:80]}
         rest_lines = out.split("\n")[b0.end_lineno:]
